@@ -222,7 +222,7 @@ def fam_fseq(g, t, W):
                 g.wr("fseq2d", t, sh, [F(*ea[1:]), F(*eb[1:])], [0, 1, 2, 3, 4], ["scalar", "same"], 0, 0.07)
             k += 1
         sht = (2 * W + 1, 3)
-        for enc in range(3):
+        for enc in (range(3) if 2 * W + 1 >= 4 else ()):      # (the row range 1:4 needs four rows: not for the scalar ABI, W = 1)
             ea, eb = _encodings(2 * W + 1, 1, 4, 1)[enc], _encodings(3, 0, 3, 1)[(enc + 1) % 3]
             g.wr("fseq2d", t, sht, [F(*ea[1:]), F(*eb[1:])], [0, 1, 2, 3, 4], ["scalar", "same"], 0, 0.07)
     # rank 3 on (2,3,W+1)
